@@ -303,6 +303,12 @@ fn check(args: &[String]) -> i32 {
                 .arg("--index").arg(j.to_string())
                 .arg("--profile").arg(profile)
                 .env("RAYON_NUM_THREADS", "2")
+                // keep freed memory in the process: zstd contexts and 4 MiB write buffers are
+                // allocated per run, and returning them to the OS each time costs more in page
+                // faults than the simulated runs themselves (3-10x)
+                .env("MALLOC_TRIM_THRESHOLD_", "4000000000")
+                .env("MALLOC_MMAP_THRESHOLD_", "33554432")
+                .env("MALLOC_TOP_PAD_", "268435456")
                 .stdout(Stdio::piped());
             if std::env::var("VERIF_DEBUG").is_err() {
                 // shuttle prints an unconditional line per detected deadlock; deadlocks are data here
